@@ -164,7 +164,7 @@ package tracer
 // a body is traced as an envelope stream exactly for Connect streaming and gRPC(-Web) content
 // types, and never when the whole body is content-encoded
 //@ func propertiesFromHeaders
-//@   modifies nothing
+//@   modifies ghosts:*Src
 //@   ensures isStream == (!(has(headers, canonKey("Content-Encoding")) && len(headers[canonKey("Content-Encoding")]) > 0 && headers[canonKey("Content-Encoding")][0] != "") &&
 //@       (hasPrefix(strLower((has(headers, canonKey("Content-Type")) && len(headers[canonKey("Content-Type")]) > 0) ? headers[canonKey("Content-Type")][0] : ""), "application/connect") ||
 //@        hasPrefix(strLower((has(headers, canonKey("Content-Type")) && len(headers[canonKey("Content-Type")]) > 0) ? headers[canonKey("Content-Type")][0] : ""), "application/grpc")))
@@ -176,7 +176,7 @@ package tracer
 
 //@ func (*tracingResponseWriter).WriteHeader
 //@   requires wfWriter(t) && !held[t.dataTracer.mu]
-//@   modifies tracingResponseWriter.*, dataTracer.*, http.Response.*, map[string][]string, []string, bufContent, rwStatusN, rwStatus,
+//@   modifies ghosts:*Src, tracingResponseWriter.*, dataTracer.*, http.Response.*, map[string][]string, []string, bufContent, rwStatusN, rwStatus,
 //@            evN, evKind, evLen, evEnv, builder.*, eventOffset.*, []Event, http.Request.*, ResponseStart.*, RequestBodyData.*, ResponseBodyData.*
 //@   ensures wfWriter(t) && t.started && !held[t.dataTracer.mu] && t.finished == old(t.finished)
 //@   ensures @stable t.respWriter == old(t.respWriter) && t.req == old(t.req) && t.builder == old(t.builder)
@@ -195,7 +195,7 @@ package tracer
 //@ func (*tracingResponseWriter).Write
 //@   requires wfWriter(t) && !held[t.dataTracer.mu]
 //@   requires slicebase(data) != slicebase(t.dataTracer.prefix) //# the tracer's private prefix buffer is not the caller's buffer
-//@   modifies trS, tracingResponseWriter.*, dataTracer.*, http.Response.*, map[string][]string, []string, []byte, bufContent, Envelope.*, held, lastWriteN, lastWriteErr, wrOut, rwStatusN, rwStatus,
+//@   modifies ghosts:*Src, trS, tracingResponseWriter.*, dataTracer.*, http.Response.*, map[string][]string, []string, []byte, bufContent, Envelope.*, held, lastWriteN, lastWriteErr, wrOut, rwStatusN, rwStatus,
 //@            evN, evKind, evLen, evEnv, builder.*, eventOffset.*, []Event, http.Request.*, ResponseStart.*, RequestBodyData.*, ResponseBodyData.*, ResponseBodyEndStream.*, ResponseBodyEnd.*
 //@   ensures @passthrough result_0 == lastWriteN[t.respWriter] && result_1 == lastWriteErr[t.respWriter]
 //@   ensures @untouched unchangedArray(data)
@@ -207,7 +207,7 @@ package tracer
 // one body-end event); later calls do nothing.
 //@ func (*tracingResponseWriter).tryFinish
 //@   requires wfWriter(t) && !held[t.dataTracer.mu]
-//@   modifies tracingResponseWriter.*, dataTracer.*, http.Response.*, map[string][]string, []string, bufContent, held, rwStatusN, rwStatus,
+//@   modifies ghosts:*Src, tracingResponseWriter.*, dataTracer.*, http.Response.*, map[string][]string, []string, bufContent, held, rwStatusN, rwStatus,
 //@            evN, evKind, evLen, evEnv, builder.*, eventOffset.*, []Event, http.Request.*, ResponseStart.*, RequestBodyData.*, ResponseBodyData.*, ResponseBodyEnd.*
 //@   ensures t.finished && t.started && wfWriter(t) && !held[t.dataTracer.mu]
 //@   ensures @stable t.respWriter == old(t.respWriter) && t.req == old(t.req) && t.builder == old(t.builder)
